@@ -11,6 +11,7 @@
 #include <map>
 #include <sys/mman.h>
 #include <ucontext.h>
+#include <sys/syscall.h>
 #include <unistd.h>
 
 #if defined(SIM_SAN)
@@ -162,17 +163,19 @@ void harness_error(const char *fmt, ...) {
   va_end(ap);
   fflush(stderr);
   fflush(stdout);
-  _exit(2);
+  syscall(SYS_exit_group, 2);  // not _exit(): an engine may interpose it for the code under test
+  __builtin_unreachable();
 }
 
 bool active() { return W != nullptr && !W->finished && W->current != &W->mainctx; }
 int self() { return active() ? W->current->id : -1; }
 int self_proc() { return active() ? W->current->proc : 0; }
 long now_step() { return W ? W->ticks : 0; }
-long long now_ns() { return (W ? (long long)W->ticks : 0LL) * TICK_NS; }
+long long tick_ns() { return W ? W->cfg.tick_ns : 50000000LL; }
+long long now_ns() { return (W ? (long long)W->ticks : 0LL) * tick_ns(); }
 void sleep_ns(long long ns) {
   if (!active()) return;
-  long k = 1 + (long)(ns / TICK_NS);
+  long k = 1 + (long)(ns / tick_ns());
   if (k > 100000) k = 100000;
   Task *t = W->current;
   t->state = T_BLOCKED;
@@ -589,7 +592,7 @@ static char g_altstack[1 << 16];
 static void on_signal(int sig) {
   const char *n = sig == SIGSEGV ? "SIGSEGV" : sig == SIGABRT ? "SIGABRT" : sig == SIGFPE ? "SIGFPE" : sig == SIGBUS ? "SIGBUS" : "SIGILL";
   if (g_on_crash) g_on_crash(n);
-  _exit(3);
+  syscall(SYS_exit_group, 3);
 }
 void install_crash_reporter(void (*on_crash)(const char *)) {
   g_on_crash = on_crash;
@@ -605,7 +608,7 @@ void install_crash_reporter(void (*on_crash)(const char *)) {
   for (int s : {SIGSEGV, SIGABRT, SIGFPE, SIGBUS, SIGILL}) sigaction(s, &sa, nullptr);
   std::set_terminate([] {
     if (g_on_crash) g_on_crash("terminate");
-    _exit(3);
+    syscall(SYS_exit_group, 3);
   });
 }
 
